@@ -60,7 +60,7 @@ def plan(tier, seed):
 
 
 def mandatory(tier):
-    return [f"model/{m}" for m in MODELS] + [f"op/{o}" for o in OPS] + [f"kind/{k}" for k in X.KINDS] + [f"grid_/at_new_samples/{k}" for k in ("resize", "other_domain", "same_shape")] + ["first_read_is_inverse", "image_transformer_reads_first", "pointset_transformer_reads_first"] + [f"svf_view/{v}" for v in VIEWS] + ["svf_view/grid_/flip_align_corners", "fit/parameters", "fit/finer", "linked_inverse/data_", "linked_inverse/inplace", "linked_inverse/kind/parameter", "linked_inverse/kind/buffer"]
+    return [f"model/{m}" for m in MODELS] + [f"op/{o}" for o in OPS] + [f"kind/{k}" for k in X.KINDS] + [f"grid_/at_new_samples/{k}" for k in ("resize", "other_domain", "same_shape")] + ["first_read_is_inverse", "image_transformer_reads_first", "pointset_transformer_reads_first", "condition_/via_transformer", "update/via_transformer"] + [f"svf_view/{v}" for v in VIEWS] + ["svf_view/grid_/flip_align_corners", "fit/parameters", "fit/finer", "linked_inverse/data_", "linked_inverse/inplace", "linked_inverse/kind/parameter", "linked_inverse/kind/buffer"]
 
 
 class Subject:
@@ -311,7 +311,16 @@ def history(ctx, rng, info, subj, i):
             elif op == "condition_":
                 args = dict(scale=float(rng.uniform(0.3, 1.2)), shift=float(rng.uniform(-1, 1)))
                 desc.update(args)
-                t.condition_(args["scale"], shift=args["shift"])
+                wrapper = (mapper if mapper is not None else (warper or {}).get("warp")) if rng.integers(0, 2) else None
+                if wrapper is not None:
+                    # through the transformer module that holds the transform (SpatialTransformer.condition_ delegates)
+                    desc["via"] = type(wrapper).__name__
+                    wrapper.condition_(args["scale"], shift=args["shift"])
+                    ctx.bucket("condition_/via_transformer")
+                    ca, ck = wrapper.condition()
+                    ctx.true("transformer_reports_the_transforms_condition", (tuple(ca), dict(ck)) == (tuple(t.condition()[0]), dict(t.condition()[1])) and tuple(ca) == (args["scale"],) and dict(ck) == {"shift": args["shift"]}, key="condition/transformer", got=[list(ca), dict(ck)], history=list(hist), **info)
+                else:
+                    t.condition_(args["scale"], shift=args["shift"])
                 hist.append(desc)
                 first_read_is_inverse(ctx, rng, subj, x, hist, info, desc)
                 compare_fresh(ctx, subj, x, hist, info, "disp")
@@ -347,7 +356,13 @@ def history(ctx, rng, info, subj, i):
                 compare_fresh(ctx, subj, x, hist, info, "disp")
                 compare_fresh(ctx, subj, x, hist, info, "tensor")
             elif op == "update":
-                t.update()
+                wrapper = (mapper if mapper is not None else (warper or {}).get("warp")) if rng.integers(0, 2) else None
+                if wrapper is not None:
+                    desc["via"] = type(wrapper).__name__
+                    wrapper.update()
+                    ctx.bucket("update/via_transformer")
+                else:
+                    t.update()
                 hist.append(desc)
                 compare_fresh(ctx, subj, x, hist, info, "disp")
             elif op == "call":
